@@ -192,18 +192,52 @@ WS_CLS = ("BlankNode", "CommentNode", "WhitespaceNode")
 DURATION = re.compile(r"^\s*([0-9]*\.?[0-9]+)\s*(s|min|h)\s*$")
 
 
+def gen_rerun_method(rng: random.Random) -> tuple[str, dict[str, int]]:
+    """A Wait inside a Macro called 2-3 times, or inside the body of an Alarm that fires again and again."""
+    d = rng.choice(["0.25", "0.375", "0.5", "0.75", "1", "1.25"])
+    thr = (rng.choice(["0.25", "0.5"]) + " ") if rng.random() < 0.25 else ""
+    pre = ["Mark: a"] if rng.random() < 0.6 else []
+    post = rng.choice([["Mark: b"], ["Mark: b", "Mark: c"], ["CmdA", "Mark: b"]])
+    body = pre + [f"{thr}Wait: {d}s"] + post
+    if rng.random() < 0.2:
+        body += [f"Wait: {rng.choice(['0.25', '0.5'])}s", "Mark: z"]
+    lines = ["Base: s"]
+    if rng.random() < 0.5:
+        calls = rng.choice([2, 3])
+        lines += ["Macro: M1"] + ["    " + x for x in body]
+        for c in range(calls):
+            lines.append("Call macro: M1")
+            if rng.random() < 0.4:
+                lines.append(rng.choice(["Mark: m", "Wait: 0.25s", "CmdA"]))
+        kind = "rerun_macro"
+    else:
+        lines += [f"Alarm: T0 > 0"] + ["    " + x for x in body]
+        if rng.random() < 0.5:
+            lines += ["Mark: m", "Wait: 1s", "Mark: n"]
+        kind = "rerun_alarm"
+    return "\n".join(lines), {kind: 1, "wait": sum(1 for x in lines if "Wait:" in x)}
+
+
 def gen_oracle_case(rng: random.Random, default_interval: bool) -> dict:
     features = {"mark", "block", "watch", "wait", "cmd", "thr", "base", "blank"}
-    if rng.random() < 0.25:
+    if rng.random() < 0.3:
         features.add("alarm")
-    pcode, stats = gen_method(rng, features, max_lines=rng.choice([6, 9, 12]), max_depth=2, p_thr=0.45)
-    n_ticks = rng.choice([60, 90, 120])
+    if rng.random() < 0.3:
+        features.add("macro")
+    rerun = default_interval and rng.random() < 0.3
+    if rerun:
+        pcode, stats = gen_rerun_method(rng)
+    else:
+        pcode, stats = gen_method(rng, features, max_lines=rng.choice([6, 9, 12]), max_depth=2, p_thr=0.45)
+    n_ticks = rng.choice([60, 90, 120]) if not rerun else rng.choice([90, 120])
     plan: list[list] = []
     paused_until = -1
     mode = None
     for t in range(n_ticks):
         acts: list = []
-        if rng.random() < 0.25:
+        if rerun and t == 0:
+            acts.append(["tag", "T0", 1])
+        elif rng.random() < 0.25 and not (rerun and rng.random() < 0.8):
             acts.append(["tag", f"T{rng.randrange(3)}", rng.randrange(4)])
         if mode is None and rng.random() < 0.03 and t > 3:
             mode = rng.choice(["Pause", "Hold"])
@@ -328,6 +362,7 @@ def oracle_case(case: dict, stats: dict | None = None):
         timers: list[list[Fraction]] = [[]]
         units_in_program = {m.group(1) for m in re.finditer(r"Base:\s*(s|min|h)\b", case["pcode"])}
         wait_track: dict[str, dict] = {}
+        wait_execs: dict[str, int] = {}
         errored = False
 
         def fail(key, k, detail):
@@ -420,8 +455,12 @@ def oracle_case(case: dict, stats: dict | None = None):
                                         f"line {n['line']} threshold {n['threshold']}: predecessor complete and clock "
                                         f"{float(_clock(prev))} >= threshold before tick {k}, not started in tick {k}")
                 # ---------------- Wait
-                if default_interval and n["name"] == "Wait" and flipped and not n["forced"]:
-                    wait_track[n["id"]] = {"i": k}
+                # a new execution of a Wait: its `started` flag flips, or (first line of a macro body: reset and
+                # restarted in one tick) it was completed before the tick and is started-not-completed after it
+                new_exec = flipped or (n["started"] and p["started"] and p["completed"] and not n["completed"])
+                if default_interval and n["name"] == "Wait" and new_exec and not n["forced"]:
+                    wait_track[n["id"]] = {"i": k, "nth": wait_execs.get(n["id"], 0) + 1}
+                    wait_execs[n["id"]] = wait_execs.get(n["id"], 0) + 1
             if any(not r for r in ran[3:]) and ran_k:
                 cnt("ticks_after_a_pause_or_hold")
             if default_interval:
@@ -441,9 +480,24 @@ def _check_waits(cur, k, ran, wait_track, fail, cnt):
         if w is None or w["forced"] or not w["started"]:
             wait_track.pop(wid, None)
             continue
-        if any(a["cls"] in ("AlarmNode", "MacroNode", "InjectedNode") for a in _ancestors(nodes, w)):
+        anc = _ancestors(nodes, w)                       # nearest first
+        if any(a["cls"] == "InjectedNode" for a in anc):
             wait_track.pop(wid, None)
             continue
+        # a Watch/Alarm nested inside an Alarm or Macro body keeps an orphaned generator over reset flags: not judged
+        if any(a["cls"] in ("WatchNode", "AlarmNode") and
+               any(b["cls"] in ("AlarmNode", "MacroNode") for b in anc[x + 1:]) for x, a in enumerate(anc)):
+            wait_track.pop(wid, None)
+            continue
+        rerun = next((a for a in anc if a["cls"] in ("AlarmNode", "MacroNode")), None)
+        rerun_scope = rerun["cls"] if rerun is not None else None
+        if rerun is not None:
+            # ... and so does a Watch/Alarm anywhere else in the re-run body (its generator survives the reset)
+            def has_interrupt(nid):
+                return any(nodes[c]["cls"] in ("WatchNode", "AlarmNode") or has_interrupt(c) for c in kids.get(nid, []))
+            if has_interrupt(rerun["id"]):
+                wait_track.pop(wid, None)
+                continue
         m = DURATION.match(w["arg"] or "")
         if m is None:
             wait_track.pop(wid, None)
@@ -456,6 +510,9 @@ def _check_waits(cur, k, ran, wait_track, fail, cnt):
             continue
         succ = nodes[sibs[idx + 1]]
         i = tr["i"]
+        if k == i and succ["started"]:
+            wait_track.pop(wid, None)     # the successor was not seen un-started in this execution: not judged
+            continue
         b = next((t for t in range(i + 1, k + 1) if ran[t]), None)      # tick of the Wait body
         running_after_b = 0 if b is None else sum(1 for t in range(b + 1, k + 1) if ran[t])
         plain_succ = succ["cls"] not in WS_CLS and succ["threshold"] is None
@@ -466,12 +523,14 @@ def _check_waits(cur, k, ran, wait_track, fail, cnt):
                 cnt("wait_lower_bound_judged")
                 if plain_succ:
                     cnt("wait_upper_bound_judged")
+                if rerun_scope is not None:
+                    cnt(f"wait_in_{rerun_scope}_execution_{min(tr.get('nth', 1), 3)}_judged")
                 if any(not ran[t] for t in range(i, k + 1)):
                     cnt("wait_spanning_pause_or_hold")
                 if k - i < math.ceil(d / tenth):
                     return fail("wait-successor-started-before-duration-elapsed", k,
-                                f"Wait: {w['arg']} (line {w['line']}) got started in tick {i}, line {succ['line']} started in "
-                                f"tick {k}: {k - i} ticks of 0.1 s < {float(d)} s")
+                                f"Wait: {w['arg']} (line {w['line']}, execution {tr.get('nth', 1)}) got started in tick {i}, "
+                                f"line {succ['line']} started in tick {k}: {k - i} ticks of 0.1 s < {float(d)} s")
                 if plain_succ and running_after_b > limit:
                     return fail("wait-successor-started-later-than-one-tick-after-duration", k,
                                 f"Wait: {w['arg']} (line {w['line']}) began waiting in tick {b}, line {succ['line']} started in "
